@@ -29,8 +29,10 @@ import (
 	"encoding/hex"
 	"encoding/json"
 	"fmt"
+	"io/fs"
 	"os"
 	"os/exec"
+	"os/signal"
 	"path"
 	"path/filepath"
 	"regexp"
@@ -42,6 +44,9 @@ import (
 	"syscall"
 	"time"
 	. "verifharness/vhlib"
+
+	"github.com/hknutzen/Netspoc-Approve/go/pkg/device"
+	"github.com/hknutzen/Netspoc-Approve/go/pkg/program"
 )
 
 func main() {
@@ -61,11 +66,17 @@ func main() {
 
 func simdev(args []string) {
 	if len(args) < 6 {
-		fmt.Fprintln(os.Stderr, "usage: simdev ID DEVICE EVENTLOG GATEDIR SCENARIO DELAY_US")
+		fmt.Fprintln(os.Stderr, "usage: simdev ID DEVICE EVENTLOG GATEDIR SCENARIO DELAY_US [LINGER_MS]")
 		os.Exit(2)
 	}
 	id, device, logf, gatedir, scen := args[0], args[1], args[2], args[3], args[4]
 	delay, _ := strconv.Atoi(args[5])
+	linger := 0
+	if len(args) > 6 {
+		linger, _ = strconv.Atoi(args[6])
+	}
+	// like a real ssh that does not notice at once that its parent is gone
+	signal.Ignore(syscall.SIGHUP)
 	ev := func(kind string, n int) {
 		f, err := os.OpenFile(logf, os.O_APPEND|os.O_CREATE|os.O_WRONLY, 0644)
 		if err == nil {
@@ -81,9 +92,21 @@ func simdev(args []string) {
 	phase := 0
 	in := bufio.NewReader(os.Stdin)
 	out := os.Stdout
-	finish := func() {
+	finish := func(orphan bool) {
+		if linger > 0 && orphan {
+			ev("ORPHAN", phase)
+			time.Sleep(time.Duration(linger) * time.Millisecond)
+		}
 		ev("END", phase)
 		os.Exit(0)
+	}
+	// which process holds the lock descriptor?  Not this child: the lock file is opened close-on-exec.
+	if ents, err := os.ReadDir("/proc/self/fd"); err == nil {
+		for _, e := range ents {
+			if t, err := os.Readlink("/proc/self/fd/" + e.Name()); err == nil && strings.Contains(t, "/lock/") {
+				ev("FDLEAK", 0)
+			}
+		}
 	}
 	readLine := func() string {
 		if phase == hold {
@@ -97,7 +120,7 @@ func simdev(args []string) {
 					break
 				}
 				if os.Getppid() != ppid {
-					finish()
+					finish(true)
 				}
 				time.Sleep(time.Millisecond)
 			}
@@ -106,7 +129,7 @@ func simdev(args []string) {
 		}
 		line, err := in.ReadString('\n')
 		if err != nil && line == "" {
-			finish()
+			finish(true)
 		}
 		if strings.TrimPrefix(strings.TrimSuffix(line, "\n"), "do ") == "exit" {
 			ev("BYE", phase) // not awaited by the client: may or may not be seen before we are hung up
@@ -164,7 +187,7 @@ func simdev(args []string) {
 		}
 		sendLine(device + "#")
 	}
-	finish()
+	finish(false)
 }
 
 func scenarioFor(dev string) string {
@@ -204,6 +227,11 @@ type inv struct {
 	Arg    string `json:"arg"`    // how the device is spelled on the command line
 	Cwd    string `json:"cwd"`    // working directory relative to the base dir
 	LogDir bool   `json:"logdir"` // drc -L
+	// an invocation that ends by an early return before the lock (usage error, -h, -v, unknown
+	// device): Raw are its arguments, EarlyK says which conditional return of the model it takes
+	IsEarly bool     `json:"early,omitempty"`
+	EarlyK  int      `json:"early_k,omitempty"`
+	Raw     []string `json:"raw,omitempty"`
 }
 
 func (v inv) spec() string {
@@ -214,6 +242,9 @@ func (v inv) spec() string {
 }
 
 func (v inv) String() string {
+	if v.IsEarly {
+		return fmt.Sprintf("%s %s [early return %d]", v.Front, strings.Join(v.Raw, " "), v.EarlyK)
+	}
 	if v.Front == "drc" {
 		s := "drc"
 		if v.Action == "compare" {
@@ -246,6 +277,8 @@ type world struct {
 	procs    []*proc
 	eventLog string
 	gateDir  string
+	lingerMS int // how long an orphaned simulator (ssh child of a killed run) stays alive
+	wrap     []string // command prefix for the next start (strace …)
 }
 
 var devices = []string{"dev", "other"}
@@ -289,7 +322,9 @@ func (w *world) start(v inv, hold int, delayUS int) *proc {
 		os.WriteFile(filepath.Join(w.gateDir, fmt.Sprintf("hold-%d", id)), []byte(strconv.Itoa(hold)), 0644)
 	}
 	var args []string
-	if v.Front == "drc" {
+	if v.IsEarly {
+		args = v.Raw
+	} else if v.Front == "drc" {
 		if v.Action == "compare" {
 			args = append(args, "-C")
 		}
@@ -301,12 +336,15 @@ func (w *world) start(v inv, hold int, delayUS int) *proc {
 		args = []string{v.Action, v.Arg}
 	}
 	cmd := exec.Command(w.bins[v.Front], args...)
+	if len(w.wrap) > 0 {
+		cmd = exec.Command(w.wrap[0], append(append(append([]string{}, w.wrap[1:]...), w.bins[v.Front]), args...)...)
+	}
 	cmd.Dir = filepath.Join(w.dir, v.Cwd)
 	cmd.Env = []string{
 		"PATH=" + os.Getenv("PATH"), "HOME=" + w.dir, "GOGC=1", // collect eagerly: an unreachable lock file gets finalised soon
 		"TEST_TIME=" + testTime(id).Format("2006-Jan-02 15:04:05"),
-		fmt.Sprintf("SIMULATE_ROUTER=%s simdev %d %s %s %s %s %d", w.self, id, v.Dev, w.eventLog, w.gateDir,
-			filepath.Join(w.dir, "scenario-"+v.Dev), delayUS),
+		fmt.Sprintf("SIMULATE_ROUTER=%s simdev %d %s %s %s %s %d %d", w.self, id, v.Dev, w.eventLog, w.gateDir,
+			filepath.Join(w.dir, "scenario-"+v.Dev), delayUS, w.lingerMS),
 	}
 	cmd.Stdout = &p.stdout
 	cmd.Stderr = &p.stderr
@@ -398,12 +436,19 @@ func (w *world) waitAt(p *proc, d time.Duration) bool {
 // snapshot hashes everything a run may write except the lock directory and the harness' own files.
 func (w *world) snapshot() map[string]string {
 	m := map[string]string{}
-	for _, sub := range []string{"status", "history", "policies", "drclog"} {
-		filepath.Walk(filepath.Join(w.dir, sub), func(p string, info os.FileInfo, err error) error {
+	{
+		filepath.Walk(w.dir, func(p string, info os.FileInfo, err error) error {
 			if err != nil {
 				return nil
 			}
 			rel, _ := filepath.Rel(w.dir, p)
+			// everything below the base dir except the lock directory and the harness' own files
+			if rel == "lock" || rel == "gates" {
+				return filepath.SkipDir
+			}
+			if rel == "events" || rel == "." {
+				return nil
+			}
 			if info.IsDir() {
 				m[rel+"/"] = "dir"
 				return nil
@@ -456,6 +501,7 @@ func diffSnap(a, b map[string]string) []string {
 // ------------------------------------------------------------------ observation in the model's vocabulary
 
 type interval struct {
+	talked bool // the interval [from,to] is one in which the process was certainly alive and in dialogue
 	id     int
 	dev    string
 	from   int64
@@ -486,8 +532,11 @@ func (w *world) sessions() []interval {
 		}
 	}
 	for i := range l {
+		// alive for certain between the reading of the first and of the last-but-one line; with fewer
+		// than two lines read there is no such moment (the simulator of a run killed while it spawned
+		// it starts as an orphan and sees nothing but EOF)
 		if c := cmds[l[i].id]; len(c) >= 2 {
-			l[i].to = c[len(c)-2]
+			l[i].from, l[i].to, l[i].talked = c[0], c[len(c)-2], true
 		}
 	}
 	return l
@@ -583,10 +632,14 @@ func (w *world) statusSlots() string {
 	return strings.Join(parts, "")
 }
 
+// devOrder: the sessions in order of their beginning; those of killed runs are left out (whether the
+// simulator of a run killed around its spawn ever announces itself is not a property of the run)
 func (w *world) devOrder() string {
 	var l []string
 	for _, s := range w.sessions() {
-		l = append(l, strconv.Itoa(s.id))
+		if !w.procs[s.id].killed {
+			l = append(l, strconv.Itoa(s.id))
+		}
 	}
 	return strings.Join(l, ",")
 }
@@ -637,7 +690,13 @@ func (w *world) modelObserved(ans string) string {
 			st = append(st, d+"["+s+"]")
 		}
 	}
-	return fmt.Sprintf("procs=%s;dev=%s;hist=%s;status=%s", strings.Join(pv, ","), f["dev"], f["hist"], strings.Join(st, ""))
+	var dv []string
+	for _, d := range strings.Split(f["dev"], ",") {
+		if id, err := strconv.Atoi(d); err == nil && id < len(w.procs) && !w.procs[id].killed {
+			dv = append(dv, d)
+		}
+	}
+	return fmt.Sprintf("procs=%s;dev=%s;hist=%s;status=%s", strings.Join(pv, ","), strings.Join(dv, ","), f["hist"], strings.Join(st, ""))
 }
 
 // ------------------------------------------------------------------ cases
@@ -661,6 +720,34 @@ func (c c12Case) canon() string {
 	return fmt.Sprintf("%s phase=%d par=%v delay=%d off=%v kill=%d :: %s", c.Kind, c.Phase, c.Par, c.DelayUS, c.Offsets, c.KillAt, strings.Join(l, " ; "))
 }
 
+// earlyKinds: invocations that return before the lock is even tried; EarlyK = index of the
+// conditional return in the model's step list of that front-end.
+var earlyKinds = []inv{
+	{Front: "drc", IsEarly: true, EarlyK: 0, Raw: []string{"-h"}},
+	{Front: "drc", IsEarly: true, EarlyK: 1, Raw: []string{"-v"}},
+	{Front: "drc", IsEarly: true, EarlyK: 2, Raw: []string{}},
+	{Front: "drc", IsEarly: true, EarlyK: 2, Raw: []string{"policies/current/code/dev", "x", "y"}},
+	{Front: "do-approve", IsEarly: true, EarlyK: 0, Raw: []string{"-h"}},
+	{Front: "do-approve", IsEarly: true, EarlyK: 1, Raw: []string{"approve"}},
+	{Front: "do-approve", IsEarly: true, EarlyK: 2, Raw: []string{"approve", "nodev"}},
+	{Front: "do-approve", IsEarly: true, EarlyK: 3, Raw: []string{"bogus", "dev"}},
+}
+
+func genEarly(rng *RNG, dev string) inv {
+	v := Pick(rng, earlyKinds)
+	v.Dev, v.Arg, v.Cwd, v.Action = dev, dev, ".", "approve"
+	return v
+}
+
+// loserSpelling: spellings that name the device for the lock (same path.Base) but cannot complete a
+// run (trailing slash): only for runs that must lose anyway.
+func loserSpelling(rng *RNG, v inv) inv {
+	if rng.Chance(25) {
+		v.Arg += Pick(rng, []string{"/", "//"})
+	}
+	return v
+}
+
 func genInv(rng *RNG, dev string, absBase string) inv {
 	v := inv{Dev: dev}
 	v.Action = Pick(rng, []string{"approve", "compare"})
@@ -672,7 +759,13 @@ func genInv(rng *RNG, dev string, absBase string) inv {
 	}
 	v.Front = "drc"
 	v.LogDir = rng.Chance(60)
-	switch rng.Intn(7) {
+	switch rng.Intn(10) {
+	case 7:
+		v.Cwd, v.Arg = ".", "policies/current/../p1/code/"+dev
+	case 8:
+		v.Cwd, v.Arg = ".", absBase+"//policies/p1//code//"+dev
+	case 9:
+		v.Cwd, v.Arg = "policies/p1/code/ipv6", "./../ipv6/../"+dev
 	case 0:
 		v.Cwd, v.Arg = ".", "policies/current/code/"+dev
 	case 1:
@@ -703,17 +796,67 @@ type runner struct {
 	caseNo int
 	reachCache map[string]string
 	nFail      int
+	pending    map[uint64][]pendingFail
 }
 
+type pendingFail struct {
+	sig  map[string]any
+	what string
+}
+
+// fail records an oracle failure of the case being run; it is reported when the case is over
+// (flush), unless the case was spoilt by the environment (no pty left, …).
 func (r *runner) fail(pred, what string, c c12Case, extra map[string]any) {
 	r.mu.Lock()
 	defer r.mu.Unlock()
-	r.nFail++
 	sig := map[string]any{"pred": pred, "kind": c.Kind}
 	for k, v := range extra {
 		sig[k] = v
 	}
-	r.res.Fail(sig, what+" :: "+c.canon(), c)
+	r.pending[c.Seed] = append(r.pending[c.Seed], pendingFail{sig, what + " :: " + c.canon()})
+}
+
+func (r *runner) flush(c c12Case, w *world) {
+	trouble := w.envTrouble()
+	r.mu.Lock()
+	defer r.mu.Unlock()
+	pend := r.pending[c.Seed]
+	delete(r.pending, c.Seed)
+	if trouble != "" {
+		r.res.Count("case-discarded:" + trouble)
+		return
+	}
+	for _, f := range pend {
+		r.nFail++
+		r.res.Fail(f.sig, f.what, c)
+	}
+}
+
+// envTrouble: did a run of this case fail for want of a resource of the machine (the sandbox runs
+// many other jobs: ptys, processes, memory)?  Such a case says nothing about the property.
+func (w *world) envTrouble() string {
+	texts := []string{}
+	for _, p := range w.procs {
+		texts = append(texts, p.stderr.String())
+	}
+	for _, pat := range []string{"policies/p1/log/*", "drclog/*"} {
+		files, _ := filepath.Glob(filepath.Join(w.dir, pat))
+		for _, f := range files {
+			if data, err := os.ReadFile(f); err == nil && len(data) < 1<<20 {
+				texts = append(texts, string(data))
+			}
+		}
+	}
+	for _, t := range texts {
+		switch {
+		case strings.Contains(t, "/dev/ptmx"):
+			return "no-pty-left"
+		case strings.Contains(t, "resource temporarily unavailable"), strings.Contains(t, "cannot allocate memory"),
+			strings.Contains(t, "too many open files"):
+			return "out-of-resources"
+		}
+	}
+	return ""
 }
 
 // checkLoser: the oracle for one losing run.
@@ -730,15 +873,123 @@ func (r *runner) checkLoser(c c12Case, w *world, p *proc) {
 	}
 }
 
+func procState(pid int) string {
+	data, err := os.ReadFile(fmt.Sprintf("/proc/%d/stat", pid))
+	if err != nil {
+		return ""
+	}
+	if i := strings.LastIndex(string(data), ") "); i >= 0 && i+2 < len(data) {
+		return string(data[i+2 : i+3])
+	}
+	return ""
+}
+
+func exeOf(pid int) string {
+	t, _ := os.Readlink(fmt.Sprintf("/proc/%d/exe", pid))
+	return t
+}
+
+// forkWindow waits until the front-end started as p (under strace) has forked the child for its
+// device session and that child has not reached exec yet: two processes with the command line and the
+// executable of the front-end in this case's directory, one the parent of the other, both holding
+// a descriptor of a lock file.  Returns their pids (0,0 if that is never seen).
+func (w *world) forkWindow(p *proc, d time.Duration) (int, int) {
+	bin := w.bins[p.v.Front]
+	deadline := time.Now().Add(d)
+	for time.Now().Before(deadline) {
+		select {
+		case <-p.done:
+			return 0, 0
+		default:
+		}
+		type pi struct{ pid, ppid int }
+		var l []pi
+		ents, _ := os.ReadDir("/proc")
+		for _, e := range ents {
+			pid, err := strconv.Atoi(e.Name())
+			if err != nil || exeOf(pid) != bin {
+				continue
+			}
+			if cwd, _ := os.Readlink(fmt.Sprintf("/proc/%d/cwd", pid)); !strings.HasPrefix(cwd, w.dir) {
+				continue
+			}
+			data, err := os.ReadFile(fmt.Sprintf("/proc/%d/stat", pid))
+			if err != nil {
+				continue
+			}
+			f := strings.Fields(string(data[strings.LastIndex(string(data), ") ")+2:]))
+			if len(f) < 2 {
+				continue
+			}
+			ppid, _ := strconv.Atoi(f[1])
+			l = append(l, pi{pid, ppid})
+		}
+		for _, a := range l {
+			for _, b := range l {
+				if b.ppid == a.pid && holdsLockFd(a.pid) && holdsLockFd(b.pid) {
+					return a.pid, b.pid
+				}
+			}
+		}
+		time.Sleep(2 * time.Millisecond)
+	}
+	return 0, 0
+}
+
+func holdsLockFd(pid int) bool {
+	ents, _ := os.ReadDir(fmt.Sprintf("/proc/%d/fd", pid))
+	for _, e := range ents {
+		if t, err := os.Readlink(fmt.Sprintf("/proc/%d/fd/%s", pid, e.Name())); err == nil && strings.Contains(t, "/lock/") {
+			return true
+		}
+	}
+	return false
+}
+
+// checkEarly: a run that ends by an early return (usage error, -h, -v, unknown device) never reaches
+// the lock: no `Approve in progress`, no session, exit 0 or 1 (files: snapshot of the caller).
+func (r *runner) checkEarly(c c12Case, w *world, p *proc) {
+	if strings.Contains(p.stderr.String(), "Approve in progress") || (p.exit != 0 && p.exit != 1) {
+		r.fail("early_return_wrong", fmt.Sprintf("run %d (%s): exit=%d stderr=%q", p.id, p.v, p.exit, p.stderr.String()), c, nil)
+	}
+	for _, s := range w.sessions() {
+		if s.id == p.id {
+			r.fail("early_return_talked_to_device", fmt.Sprintf("run %d (%s) opened a device session", p.id, p.v), c, nil)
+		}
+	}
+}
+
+// timeline: all simulator events and process lifetimes in microseconds since the first event (diagnostics).
+func (w *world) timeline() string {
+	evs := w.events()
+	if len(evs) == 0 {
+		return "no events"
+	}
+	t0 := evs[0].t
+	for _, p := range w.procs {
+		if p.start.UnixNano() < t0 {
+			t0 = p.start.UnixNano()
+		}
+	}
+	var b strings.Builder
+	for _, p := range w.procs {
+		fmt.Fprintf(&b, "proc %d [%d..%d us] killed=%v exit=%d; ", p.id, (p.start.UnixNano()-t0)/1000, (p.end.UnixNano()-t0)/1000, p.killed, p.exit)
+	}
+	for _, e := range evs {
+		fmt.Fprintf(&b, "%d:%s%d@%d ", e.id, e.kind, e.n, (e.t-t0)/1000)
+	}
+	return b.String()
+}
+
 // checkOverlap: sessions for one device must be disjoint in time.
 func (r *runner) checkOverlap(c c12Case, w *world) {
 	ss := w.sessions()
 	for i := range ss {
 		for j := i + 1; j < len(ss); j++ {
 			a, b := ss[i], ss[j]
-			if a.dev == b.dev && a.from < b.to && b.from < a.to {
+			if a.dev == b.dev && a.talked && b.talked && a.from < b.to && b.from < a.to {
 				r.fail("overlapping_sessions",
-					fmt.Sprintf("runs %d and %d both had a session with device %s at the same time", a.id, b.id, a.dev), c, nil)
+					fmt.Sprintf("runs %d and %d both had a session with device %s at the same time; %s", a.id, b.id, a.dev, w.timeline()), c, nil)
 			}
 		}
 	}
@@ -819,6 +1070,7 @@ func (r *runner) runCase(c c12Case) {
 	cx := r.fixBase(c, dir) // absolute spellings need the directory
 	w := newWorld(dir, r.self, r.bins, rng)
 	defer os.RemoveAll(dir)
+	defer r.flush(c, w)
 	long := 12 * time.Second
 	var sched []string
 	exact := true
@@ -842,7 +1094,11 @@ func (r *runner) runCase(c c12Case) {
 		for i := 1; i < last; i++ {
 			p := w.start(cx.Invs[i], -1, 0)
 			cs = append(cs, p)
-			sched = append(sched, fmt.Sprintf("R%d", p.id))
+			if p.v.IsEarly {
+				sched = append(sched, fmt.Sprintf("X%d", 10*p.id+p.v.EarlyK))
+			} else {
+				sched = append(sched, fmt.Sprintf("R%d", p.id))
+			}
 			if !c.Par || cx.Invs[i].Dev != cx.Invs[0].Dev {
 				if !p.wait(long) {
 					hung(p)
@@ -859,7 +1115,9 @@ func (r *runner) runCase(c c12Case) {
 		after := w.snapshot()
 		otherRan := false
 		for _, p := range cs {
-			if p.v.Dev == h.v.Dev {
+			if p.v.IsEarly {
+				r.checkEarly(c, w, p)
+			} else if p.v.Dev == h.v.Dev {
 				r.checkLoser(c, w, p)
 			} else {
 				otherRan = true
@@ -894,6 +1152,9 @@ func (r *runner) runCase(c c12Case) {
 		}
 	case "gated-kill":
 		// Invs[0] holder (killed while parked), Invs[1] optional contender before the kill (Par), then runs after.
+		// The holder's child (the simulator, standing for ssh) outlives it for a while: the lock must
+		// be free all the same, because the child has no descriptor of the lock file.
+		w.lingerMS = 150
 		h := w.start(cx.Invs[0], c.Phase, 0)
 		if !w.waitAt(h, long) {
 			hung(h)
@@ -912,6 +1173,7 @@ func (r *runner) runCase(c c12Case) {
 			next = 2
 		}
 		w.kill(h)
+		w.lingerMS = 0
 		sched = append(sched, "k0")
 		for i := next; i < len(cx.Invs); i++ {
 			p := w.start(cx.Invs[i], -1, 0)
@@ -924,6 +1186,76 @@ func (r *runner) runCase(c c12Case) {
 				r.fail("lock_not_released_after_kill", fmt.Sprintf("run %d (%s) after SIGKILL of the holder: exit=%d stderr=%q", p.id, p.v, p.exit, p.stderr.String()), c, nil)
 			}
 		}
+	case "fork-window":
+		// F-C12a, directed: Invs[0] the holder, run under strace with every execve entry delayed, so that
+		// the child it forks for its session stays between fork and exec for a while; SIGKILL of the
+		// holder in that window; Invs[1] right after (no run exists any more); Invs[2] after the
+		// child's exec.
+		w.wrap = []string{"strace", "-f", "-o", "/dev/null", "-e", "trace=execve", "-e", "inject=execve:delay_enter=1500000"}
+		h := w.start(cx.Invs[0], -1, 0)
+		w.wrap = nil
+		parent, child := w.forkWindow(h, 6*time.Second)
+		if parent == 0 {
+			// no strace, ptrace not permitted, or the window was missed: nothing observed, nothing claimed
+			w.kill(h)
+			r.mu.Lock()
+			r.res.Count("fork-window:not-reproduced")
+			r.mu.Unlock()
+			return
+		}
+		syscall.Kill(parent, syscall.SIGKILL)
+		for i := 0; i < 2000 && procState(parent) != "" && procState(parent) != "Z"; i++ {
+			time.Sleep(time.Millisecond)
+		}
+		h.killed = true
+		sched = append(sched, "F0", "k0")
+		c1 := w.start(cx.Invs[1], -1, 0)
+		if !c1.wait(long) {
+			hung(c1)
+			return
+		}
+		stillWindow := exeOf(child) == w.bins[cx.Invs[0].Front]
+		lost1 := c1.exit != 0 && strings.Contains(c1.stderr.String(), "Approve in progress")
+		if stillWindow || lost1 {
+			sched = append(sched, "R1", "c0")
+		} else {
+			// (slow machine) the child reached its exec before run 1 reached its flock
+			sched = append(sched, "c0", "R1")
+			r.mu.Lock()
+			r.res.Count("fork-window:closed-before-contender")
+			r.mu.Unlock()
+		}
+		if c1.exit != 0 && strings.Contains(c1.stderr.String(), "Approve in progress") {
+			r.fail("lock_outlives_killed_holder_until_child_execs",
+				fmt.Sprintf("the holder (pid %d) was SIGKILLed while its child (pid %d) was between fork and exec; run 1 (%s), started when no run existed any more, was turned away: %q",
+					parent, child, c1.v, c1.stderr.String()), c, map[string]any{"window_still_open_after_run": stillWindow})
+		}
+		// wait for the child's exec: the orphaned simulator announces itself (and sees EOF)
+		for i := 0; i < 5000; i++ {
+			seen := false
+			for _, e := range w.events() {
+				if e.id == 0 && e.kind == "START" {
+					seen = true
+				}
+			}
+			if seen || procState(child) == "" {
+				break
+			}
+			time.Sleep(time.Millisecond)
+		}
+		time.Sleep(20 * time.Millisecond)
+		c2 := w.start(cx.Invs[2], -1, 0)
+		if !c2.wait(long) {
+			hung(c2)
+			return
+		}
+		sched = append(sched, "R2")
+		if c2.exit != 0 {
+			r.fail("lock_not_released_after_death", fmt.Sprintf("run 2 (%s) after the exec of the dead holder's child: exit=%d stderr=%q",
+				c2.v, c2.exit, c2.stderr.String()), c, nil)
+		}
+		h.wait(long)
+		h.killed = true
 	case "timed", "timed-kill":
 		exact = false
 		t0 := time.Now()
@@ -971,11 +1303,50 @@ func (r *runner) runCase(c c12Case) {
 			hung(f)
 			return
 		}
+		if f.exit != 0 && c.Kind == "timed-kill" && strings.Contains(f.stderr.String(), "Approve in progress") {
+			// F-C12a: the killed holder may have left a child between fork and exec, which holds a copy
+			// of the lock descriptor until it execs; the lock must be free shortly afterwards
+			for try := 0; try < 60 && f.exit != 0; try++ {
+				time.Sleep(50 * time.Millisecond)
+				f = w.start(cx.Invs[0], -1, 0)
+				if !f.wait(long) {
+					hung(f)
+					return
+				}
+			}
+			if f.exit == 0 {
+				r.fail("lock_outlives_killed_holder_until_child_execs",
+					"after SIGKILL of the holder a run was turned away although no run existed; later the lock was free; "+w.timeline(), c, nil)
+			}
+		}
 		if f.exit != 0 {
-			r.fail("lock_not_released_after_death", fmt.Sprintf("run %d (%s) after all others ended: exit=%d stderr=%q", f.id, f.v, f.exit, f.stderr.String()), c, nil)
+			r.fail("lock_not_released_after_death", fmt.Sprintf("run %d (%s) after all others ended: exit=%d stderr=%q; %s", f.id, f.v, f.exit, f.stderr.String(), w.timeline()), c, nil)
 		}
 	}
+	if w.envTrouble() != "" {
+		return // counted and discarded by flush
+	}
 	r.checkOverlap(c, w)
+	for _, e := range w.events() {
+		if e.kind == "ORPHAN" {
+			r.mu.Lock()
+			r.res.Count("child-outlived-killed-parent")
+			r.mu.Unlock()
+		}
+	}
+	for _, p := range w.procs {
+		if p.v.IsEarly {
+			r.mu.Lock()
+			r.res.Count(fmt.Sprintf("early-return:%s/%d", p.v.Front, p.v.EarlyK))
+			r.mu.Unlock()
+		}
+	}
+	for _, e := range w.events() {
+		if e.kind == "FDLEAK" {
+			r.fail("child_inherited_lock_fd", fmt.Sprintf("the device-session child of run %d has a descriptor of the lock file", e.id), c, nil)
+			break
+		}
+	}
 	r.checkHistory(c, w)
 
 	// ---- the model on the same schedule
@@ -1046,7 +1417,10 @@ func (r *runner) genCase(rng *RNG) c12Case {
 		c.Invs = []inv{same()}
 		n := 1 + rng.Intn(2)
 		for i := 0; i < n; i++ {
-			c.Invs = append(c.Invs, same())
+			c.Invs = append(c.Invs, loserSpelling(rng, same()))
+		}
+		if rng.Chance(30) {
+			c.Invs = append(c.Invs, genEarly(rng, dev))
 		}
 		if rng.Chance(35) {
 			c.Invs = append(c.Invs, genInv(rng, "other", "BASE"))
@@ -1058,6 +1432,9 @@ func (r *runner) genCase(rng *RNG) c12Case {
 		c.Phase = rng.Intn(r.phases)
 		c.Par = rng.Chance(50)
 		c.Invs = []inv{same(), same()}
+		if c.Par {
+			c.Invs[1] = loserSpelling(rng, c.Invs[1])
+		}
 		if c.Par || rng.Chance(40) {
 			c.Invs = append(c.Invs, same())
 		}
@@ -1139,7 +1516,7 @@ func run(ctx *Ctx) *Result {
 	}
 	defer os.RemoveAll(tmp)
 	self, _ := os.Executable()
-	r := &runner{ctx: ctx, res: res, tmp: tmp, self: self, bins: map[string]string{}, reachCache: map[string]string{}}
+	r := &runner{ctx: ctx, res: res, tmp: tmp, self: self, bins: map[string]string{}, reachCache: map[string]string{}, pending: map[uint64][]pendingFail{}}
 	for _, n := range []string{"drc", "do-approve"} {
 		b, err := build(ctx.Repo, tmp, n)
 		if err != nil {
@@ -1152,6 +1529,26 @@ func run(ctx *Ctx) *Result {
 	defer r.drv.Close()
 
 	if ctx.Replay != "" {
+		var arg string
+		if err := ReadReplay(ctx.Replay, &arg); err == nil {
+			bd := filepath.Join(tmp, "lk")
+			os.MkdirAll(bd, 0755)
+			fh, err := device.SetLock(arg, &program.Config{BaseDir: bd})
+			real := fmt.Sprint(err)
+			if fh != nil {
+				real = fh.Name()
+				fh.Close()
+			}
+			res.Eval("lock:"+arg, false)
+			if model := r.ask("lock\t" + bd + "\t" + arg); real != model {
+				res.Disagree("c12 lock file derivation (device.SetLock)", arg, real, model)
+			}
+			if path.Base(arg) == "dev" && real != bd+"/lock/dev" {
+				res.Fail(map[string]any{"pred": "spelling_gets_other_lock_file"},
+					fmt.Sprintf("device.SetLock(%q) locks %s, not %s/lock/dev", arg, real, bd), arg)
+			}
+			return res
+		}
 		var c c12Case
 		if err := ReadReplay(ctx.Replay, &c); err != nil {
 			fmt.Fprintln(os.Stderr, err)
@@ -1162,7 +1559,7 @@ func run(ctx *Ctx) *Result {
 	}
 
 	// ---- path.Base: Lean transcription against the real function
-	nb := ctx.N(1500, 20000)
+	nb := ctx.N(1000, 20000)
 	baseCorpus := []string{"", "/", "//", "dev", "dev/", "a/b", "a/b/", "/a", "policies/current/code/dev", "code/ipv6/dev",
 		"code//dev", ".", "..", "a/.", "é/é", " /x "}
 	for i := 0; i < nb+len(baseCorpus); i++ {
@@ -1184,12 +1581,94 @@ func run(ctx *Ctx) *Result {
 		}
 	}
 
+	// ---- lock file derivation: the real device.SetLock against the model's lockPath
+	{
+		bd := filepath.Join(tmp, "lk")
+		os.MkdirAll(bd, 0755)
+		cfg := &program.Config{BaseDir: bd}
+		nl := ctx.N(300, 6000)
+		corpus := []string{"dev", "dev/", "dev//", "policies/current/code/dev", "/abs/policies/p1/code/ipv6/dev", "code/./dev",
+			"code/../code/dev/", "//x//dev", "", ".", "..", "/", "///", "a/..", "a/.", "a/../", "./", "../dev", "dev/..", "é", "a b/c d"}
+		// bounded-exhaustive: all strings of length <= 4 over {d, /, .}
+		alpha := []string{"d", "/", "."}
+		var all func(prefix string, n int)
+		all = func(prefix string, n int) {
+			corpus = append(corpus, prefix)
+			if n == 0 {
+				return
+			}
+			for _, a := range alpha {
+				all(prefix+a, n-1)
+			}
+		}
+		all("", ctx.N(3, 5))
+		for i := 0; i < nl+len(corpus); i++ {
+			var s string
+			if i < len(corpus) {
+				s = corpus[i]
+			} else {
+				s = genPath(ctx.Rng)
+				if ctx.Rng.Chance(50) {
+					s += Pick(ctx.Rng, []string{"dev", "dev/", "/dev", "/dev//", "/ipv6/dev"})
+				}
+			}
+			var fh *os.File
+			var err error
+			panicked := ""
+			func() {
+				defer func() {
+					if e := recover(); e != nil {
+						panicked = fmt.Sprint(e)
+					}
+				}()
+				fh, err = device.SetLock(s, cfg)
+			}()
+			if panicked != "" {
+				res.Disagree("c12 lock file derivation (device.SetLock)", s, "panic: "+panicked, r.ask("lock\t"+bd+"\t"+s))
+				continue
+			}
+			real := ""
+			if fh != nil {
+				real = fh.Name()
+				fh.Close()
+			} else if pe, ok := err.(*fs.PathError); ok {
+				real = pe.Path
+			} else {
+				// the error does not say which file: nothing to compare for this argument
+				res.Count("lockpath:unobservable")
+				continue
+			}
+			model := r.ask("lock\t" + bd + "\t" + s)
+			res.Eval("lock:"+s, false)
+			res.Count("lockpath:compared")
+			if path.Base(s) == "dev" {
+				res.Count("lockpath:spelling-of-dev")
+				if real != bd+"/lock/dev" {
+					res.Fail(map[string]any{"pred": "spelling_gets_other_lock_file"},
+						fmt.Sprintf("device.SetLock(%q) locks %s, not %s/lock/dev", s, real, bd), s)
+				}
+			}
+			if real != model {
+				res.Disagree("c12 lock file derivation (device.SetLock)", s, real, model)
+			}
+		}
+	}
+
 	// ---- calibration: how many input lines has one session
 	{
-		w := newWorld(filepath.Join(tmp, "cal"), self, r.bins, NewRNG(1))
-		p := w.start(inv{Front: "do-approve", Action: "approve", Dev: "dev", Arg: "dev", Cwd: "."}, -1, 0)
+		var w *world
+		var p *proc
+		for try := 0; try < 3; try++ { // (a lone run failed once on a heavily loaded machine)
+			w = newWorld(filepath.Join(tmp, fmt.Sprintf("cal%d", try)), self, r.bins, NewRNG(1))
+			p = w.start(inv{Front: "do-approve", Action: "approve", Dev: "dev", Arg: "dev", Cwd: "."}, -1, 0)
+			if p.wait(30*time.Second) && p.exit == 0 {
+				break
+			}
+			res.Count("calibration-retry")
+		}
 		if !p.wait(30*time.Second) || p.exit != 0 {
-			res.Disagree("calibration run", nil, fmt.Sprintf("exit=%d stderr=%s", p.exit, p.stderr.String()), "")
+			logData, _ := os.ReadFile(filepath.Join(w.dir, "policies/p1/log/dev.drc"))
+			res.Disagree("calibration run", nil, fmt.Sprintf("exit=%d stderr=%s log=%s", p.exit, p.stderr.String(), logData), "")
 			return res
 		}
 		for _, e := range w.events() {
@@ -1221,6 +1700,13 @@ func run(ctx *Ctx) *Result {
 		c12Case{Kind: "gated-kill", Phase: 1, Seed: 14, Invs: []inv{dv("drc", "approve", "policies/current/code/dev", ".", true),
 			dv("do-approve", "approve", "dev", ".", false)}},
 	)
+	// F-C12a, directed (needs strace): holder killed while its child is between fork and exec
+	nfw := ctx.N(2, 6)
+	for i := 0; i < nfw; i++ {
+		hk := []inv{dv("do-approve", "approve", "dev", ".", false), dv("drc", "compare", "policies/current/code/dev", ".", true)}[i%2]
+		cases = append(cases, c12Case{Kind: "fork-window", Seed: uint64(4000 + i), Invs: []inv{hk,
+			dv("drc", "approve", "policies/p1/code/ipv6/dev", ".", false), dv("do-approve", "compare", "dev", ".", false)}})
+	}
 	// bounded-exhaustive: every phase of the session x kind of holder x kind of contender x {contend, kill}
 	// (thorough: all 4x4 pairs; quick: one pair per phase, rotating)
 	kinds := []inv{dv("do-approve", "approve", "dev", ".", false), dv("do-approve", "compare", "dev", ".", false),
@@ -1239,8 +1725,18 @@ func run(ctx *Ctx) *Result {
 			}
 		}
 	}
-	res.Notes = append(res.Notes, fmt.Sprintf("bounded-exhaustive gated cases: %d (every input line of the session as parking point)", nEx))
-	n := ctx.N(260, 6000)
+	// every early-return kind against both kinds of holder (all of them in both tiers: they are cheap)
+	for ei, e := range earlyKinds {
+		e.Dev, e.Arg, e.Cwd, e.Action = "dev", "dev", ".", "approve"
+		for hi := 0; hi < 2; hi++ {
+			h := kinds[2*hi]
+			cases = append(cases, c12Case{Kind: "gated-contend", Phase: (3*ei + 5*hi) % r.phases, Seed: uint64(3000 + nEx),
+				Invs: []inv{h, e, kinds[(ei+hi)%4], kinds[(ei+1)%4]}})
+			nEx++
+		}
+	}
+	res.Notes = append(res.Notes, fmt.Sprintf("bounded-exhaustive gated cases: %d (every input line of the session as parking point; every early-return path against a parked holder)", nEx))
+	n := ctx.N(170, 5000)
 	for i := 0; i < n; i++ {
 		cases = append(cases, r.genCase(ctx.Rng.Fork()))
 	}
